@@ -1028,9 +1028,8 @@ Proof.
   intros H Hm. unfold silent_step. rewrite <- (legal_match s t op1 op2 H Hm).
   destruct (legal s op1); [|exact H].
   destruct Hm as [op|w1 b1 w2 b2].
-  - destruct op; try exact H.
-    + apply sim_set_flags; exact H.
-    + rewrite <- (fresh_sim s t H). apply sim_refl.
+  - destruct op as [text| |text| |seed| |w b|]; try exact H.
+    rewrite <- (fresh_sim s t H). apply sim_refl.
   - apply sim_set_flags; exact H.
 Qed.
 
@@ -1058,7 +1057,9 @@ Proof. intros H. apply step_state_match; [exact H|apply om_flags]. Qed.
 
 Lemma render_caret_sim e l line s t : sim s t -> render_caret e l line s = render_caret e l line t.
 Proof.
-  intros H. unfold render_caret, program_caret, tokens_for_line. sim_rw H. reflexivity.
+  intros H. unfold render_caret. destruct l as [l|]; [|reflexivity].
+  unfold program_caret.
+  destruct (respects_tokens_for_line (loc_line l) s t H) as [E _]. rewrite E. reflexivity.
 Qed.
 
 (* two rows agree on everything C17 talks about: outcome (result, error and
@@ -1079,6 +1080,15 @@ Definition obs_agree (a b : option row) : Prop :=
 
 Lemma erased_text_agree o1 o2 : erase o1 = erase o2 -> erased_outputs_text o1 = erased_outputs_text o2.
 Proof. unfold erased_outputs_text; intros ->; reflexivity. Qed.
+
+Lemma row_agree_erased_text a b :
+  row_agree a b ->
+  exists o1 o2, r_outputs a = outputs_text o1 /\ r_outputs b = outputs_text o2
+                /\ erased_outputs_text o1 = erased_outputs_text o2.
+Proof.
+  intros (_ & _ & _ & _ & _ & o1 & o2 & Ha & Hb & He).
+  exists o1, o2. repeat split; try assumption. apply erased_text_agree; exact He.
+Qed.
 
 Lemma render_row_agree r line o1 o2 s1 s2 :
   erase o1 = erase o2 -> sim s1 s2 -> row_agree (render_row r line o1 s1) (render_row r line o2 s2).
@@ -1188,6 +1198,80 @@ Proof.
   set (s0 := imm_reset [] s).
   assert (Hw : enable_warnings s0 = enable_warnings s).
   { unfold s0, imm_reset. destruct (breakpoint s); reflexivity. }
-  repeat split; try reflexivity; try exact Hw.
-  apply sim_set_flags, sim_refl.
+  split; [reflexivity|]. split; [reflexivity|].
+  split; [apply sim_set_flags, sim_refl|].
+  repeat split; try reflexivity; exact Hw.
 Qed.
+
+(* ------------------------------------------------------------------ *)
+(* Non-vacuity: a program reading an unset variable, in all four flag
+   configurations.  The raw output queues differ (Trace and Warning records
+   are really produced), their erasures coincide. *)
+
+Definition demo_ops (w b : bool) : list hostop :=
+  [HFlags w b; HLine (bs "10 PRINT X"); HLine (bs "RUN")].
+
+Definition raw_outs (o : option (res unit * list output * interp)) : option (res unit * list output) :=
+  match o with Some (r, outs, _) => Some (r, outs) | None => None end.
+
+Definition erased_outs (o : option (res unit * list output * interp)) : option (res unit * list output) :=
+  match o with Some (r, outs, _) => Some (r, erase outs) | None => None end.
+
+Definition demo_run (w b : bool) := observe_calls default_fuel (fresh []) (demo_ops w b).
+
+Example demo_traced_and_warned :
+  map raw_outs (demo_run true true) =
+  [None; Some (Ok tt, []);
+   Some (Ok tt, [OTrace 10; OWarning (bs "Use of undeclared variable 'X'.") (Some 10%N);
+                 OPrint (bs "0" ++ [10%N])])].
+Proof. vm_compute. reflexivity. Qed.
+
+Example demo_quiet :
+  map raw_outs (demo_run false false) = [None; Some (Ok tt, []); Some (Ok tt, [OPrint (bs "0" ++ [10%N])])].
+Proof. vm_compute. reflexivity. Qed.
+
+Example demo_raw_outputs_differ :
+  map raw_outs (demo_run true true) <> map raw_outs (demo_run false false)
+  /\ map raw_outs (demo_run true false) <> map raw_outs (demo_run false false)
+  /\ map raw_outs (demo_run false true) <> map raw_outs (demo_run false false)
+  /\ map raw_outs (demo_run true false) <> map raw_outs (demo_run false true).
+Proof. vm_compute. repeat split; intros E; discriminate E. Qed.
+
+Example demo_erased_outputs_agree :
+  map erased_outs (demo_run true true) = map erased_outs (demo_run false false)
+  /\ map erased_outs (demo_run true false) = map erased_outs (demo_run false false)
+  /\ map erased_outs (demo_run false true) = map erased_outs (demo_run false false).
+Proof. vm_compute. repeat split. Qed.
+
+(* the same on the rendered rows: the outputs column differs, the others
+   compared by [row_agree] do not *)
+Example demo_rows :
+  let a := observe default_fuel (fresh []) (demo_ops true true) in
+  let b := observe default_fuel (fresh []) (demo_ops false false) in
+  map (option_map r_outputs) a <> map (option_map r_outputs) b
+  /\ map (option_map (fun r => (r_outcome r, r_state r, r_caret r, r_msg r, r_reads r))) a
+     = map (option_map (fun r => (r_outcome r, r_state r, r_caret r, r_msg r, r_reads r))) b.
+Proof. vm_compute. split; [intros E; discriminate E|reflexivity]. Qed.
+
+(* ------------------------------------------------------------------ *)
+
+Print Assumptions respects_evaluate_expression.
+Print Assumptions respects_evaluate_statement.
+Print Assumptions respects_run_next_statement.
+Print Assumptions respects_process_command.
+Print Assumptions respects_start_evaluating.
+Print Assumptions respects_continue_evaluating.
+Print Assumptions respects_provide_input.
+Print Assumptions respects_host_break.
+Print Assumptions respects_randomize.
+Print Assumptions legal_sim.
+Print Assumptions step_is_call_obs.
+Print Assumptions call_obs_match.
+Print Assumptions step_state_match.
+Print Assumptions step_row_match.
+Print Assumptions C17_transparent_history.
+Print Assumptions C17_transparent_calls.
+Print Assumptions C17_four_configurations.
+Print Assumptions trace_cmds_only_flag.
+Print Assumptions demo_raw_outputs_differ.
+Print Assumptions demo_erased_outputs_agree.
